@@ -252,6 +252,18 @@ def snot(x):
     return not x
 
 
+def smin(a, b):
+    if isinstance(a, SymInt) or isinstance(b, SymInt):
+        return SymInt(z3.If(_z(a) < _z(b), _z(a), _z(b)))
+    return min(a, b)
+
+
+def smax(a, b):
+    if isinstance(a, SymInt) or isinstance(b, SymInt):
+        return SymInt(z3.If(_z(a) > _z(b), _z(a), _z(b)))
+    return max(a, b)
+
+
 def simplies(a, b):
     return sor(snot(a), b)
 
